@@ -6,7 +6,7 @@ import subprocess, sys, json, os, re
 M = [
  # name, file, old, new, description
  ("list-endA-cursor", "v2/list.go", "pathCursor += 2", "pathCursor++", "index of hunks after appended tail elements off by one per element"),
- ("list-after-void", "v2/list.go", "\t\tif i+1 > len(a) {\n\t\t\treturn []JsonNode{voidNode{}}\n\t\t}\n\t\treturn []JsonNode{a[i]}", "\t\treturn []JsonNode{voidNode{}}", "after-context always the array boundary"),
+ ("list-after-void", "v2/list.go", "\t\tif i+1 > len(a) {\n\t\t\treturn []JsonNode{voidNode{}}\n\t\t}\n\t\treturn []JsonNode{a[i]}", "\t\t_ = i\n\t\treturn []JsonNode{voidNode{}}", "after-context always the array boundary"),
  ("list-no-recursion", "v2/list.go", "\t\tcase sameContainerType(a[aCursor], b[bCursor], options):", "\t\tcase false && sameContainerType(a[aCursor], b[bCursor], options):", "same-position containers replaced instead of recursed into"),
  ("list-before-unchecked", "v2/list.go", "\t\tcase !b.Equals(l[bIndex]):", "\t\tcase false && !b.Equals(l[bIndex]):", "before-context not compared"),
  ("list-after-unchecked", "v2/list.go", "\t\tif !a.Equals(l[aIndex]) {", "\t\tif false && !a.Equals(l[aIndex]) {", "after-context not compared"),
